@@ -339,9 +339,15 @@ func (e *SyncDiagnosticList) Clear() {
 }
 
 func (e *SyncDiagnosticList) IsFailure() bool {
+	e.Mutex.Lock()
+	defer e.Mutex.Unlock()
+
 	return e.DiagnosticList.IsFailure()
 }
 
 func (e *SyncDiagnosticList) Error() string {
+	e.Mutex.Lock()
+	defer e.Mutex.Unlock()
+
 	return e.DiagnosticList.Error()
 }
